@@ -3,8 +3,10 @@
 
   `Sim L iter mr sr` (Refine.lean): model and spec results have the same final state (which contains
   the host-call trace), the same completion kind (normal / break t / continue t / return v / throw v,
-  with the same returned or thrown value).  Completion VALUES are not part of `Sim`
-  (see `value_*` below and the Dev region `completionValue`).
+  with the same returned or thrown value) AND the same completion VALUE (`KindRel … ∧ ovVal o = c.v`:
+  otto's emptyValue / value / the value a break or continue result carries is ES5's `c.v`).  There is no
+  Dev region any more: the former region `completionValue` was repaired in otto (2145201, 1304643 and the
+  per-pass value of loops / the label reset of if and with).
 -/
 import OttoVerif.C01.RefineProof3
 namespace OttoVerif.C01.Thm
@@ -14,17 +16,30 @@ variable {St : Type}
 /-- C01.stmt_refines_trace: for EVERY statement, every expression semantics `S`, every state, every
     amount of fuel on either side: otto's label-stack evaluation and ES5's completion-record
     evaluation are in the simulation relation, provided `continue` targets are well formed
-    (ES5 §12.7 early error) and the model's pending labels `L` contain the label set `ls`
-    and none of the enclosing iteration labels. -/
+    (ES5 §12.7 early error) and the model's pending labels `L` are exactly the label set `ls`
+    (as sets) and contain none of the enclosing iteration labels. -/
 theorem stmt_refines_trace (S : Sem St) (n m : Nat) (s : Stmt) (L ls iter : List String) (σ : St)
-    (H1 : ∀ t ∈ ls, t ∈ L) (H2 : ∀ t ∈ L, t ∉ iter) (hwl : wlS iter ls s = true) :
+    (H1 : ∀ t ∈ ls, t ∈ L) (H1' : ∀ t ∈ L, t ∈ ls) (H2 : ∀ t ∈ L, t ∉ iter) (hwl : wlS iter ls s = true) :
     Sim L iter (ottoS S n s L σ) (specS S m ls s σ) :=
-  (pall_all S n).1 m s L ls iter σ H1 H2 hwl
+  (pall_all S n).1 m s L ls iter σ H1 H1' H2 hwl
 
 /-- C01.program_refines_trace: whole programs (statement list from rest). -/
 theorem program_refines_trace (S : Sem St) (n m : Nat) (ss : Stmts) (σ : St) (hwl : wlList [] ss = true) :
     Sim [] [] (ottoProgram S n ss σ) (specProgram S m ss σ) :=
-  (pall_all S n).2.2.1 m ss [] σ (.val .undef) rfl hwl
+  by
+    have := (pall_all S n).2.2.1 m ss [] σ .empty rfl hwl
+    rwa [show ovVal OV.empty = none from rfl, listWrap_none] at this
+
+/-- C01.program_refines_value: for EVERY program, every expression semantics, every state and fuel: when both
+    evaluations end without an uncaught exception, otto's completion value (emptyValue = none, or the value; for an
+    abrupt completion the value it carries) is the value of ES5's completion record. -/
+theorem program_refines_value (S : Sem St) (n m : Nat) (ss : Stmts) (σ σ1 σ2 : St) (o : OV) (c : Comp) (L' : List String)
+    (hwl : wlList [] ss = true)
+    (hm : ottoProgram S n ss σ = .ok o L' σ1) (hs : specProgram S m ss σ = .ok c σ2) :
+    ovVal o = c.v := by
+  have h := program_refines_trace S n m ss σ hwl
+  rw [hm, hs] at h
+  exact h.2.2.2
 
 /-- Readable corollary: if both evaluations terminate normally-or-abruptly without throwing, the final
     states coincide, `rt.labels` is back to rest, and otto yields a `valueResult` exactly when ES5's
